@@ -43,6 +43,7 @@ FIXES = {  # subject prefix -> properties whose check must fire when the fix is 
     "fix: structured and sub-array": ["C12"],
     "fix: groupby-apply compares": ["C38"],
     "fix: assigning to a column": ["C36"],
+    "fix: groupby selections": ["C38"],
 }
 
 
